@@ -119,7 +119,8 @@ def validate(n_per_op: int = 12, seed: int = 0, timeout: int = 900) -> dict:
     try:
         inp = os.path.join(d, "cases.json")
         json.dump(cases, open(inp, "w"))
-        env = {k: v for k, v in os.environ.items() if k in ("PATH", "HOME", "LANG", "TMPDIR")}
+        env = {k: v for k, v in os.environ.items() if k in ("PATH", "HOME", "LANG")}
+        env["TMPDIR"] = d          # selene leaves a build directory per run in the temp dir: keep it inside the directory removed below
         p = subprocess.run([INSTALLED_PY, "-I", SIDE, inp], capture_output=True, text=True, timeout=timeout, env=env, cwd=d)
         if p.returncode != 0:
             return {"cases": 0, "ops": 0, "mismatches": [], "unmapped": [], "error": (p.stderr or p.stdout)[-600:], "wall_s": time.time() - t0}
